@@ -174,3 +174,20 @@ def singleton(s, x):
 
 def forall_keys(d, p):
     return all(p(k) for k in d)
+
+
+class _IterProbe:
+    """Native stand-in: list iterators expose neither position nor sequence; clauses using these are symbolic-only."""
+
+
+def iter_pos(it):
+    import operator
+    return -operator.length_hint(it)
+
+
+def iter_seq(it):
+    return list(it)
+
+
+def is_iterator(it):
+    return hasattr(it, "__next__")
